@@ -129,6 +129,9 @@ def mutate_bytes(rng, text):
 _corpus = None
 
 
+MAX_CORPUS_LEN = 6000     # quick tier: the two big grammars (lrgrammar, pascal) take seconds each in a debug build
+
+
 def corpus():
     global _corpus
     if _corpus is None:
@@ -140,7 +143,7 @@ def corpus():
                 t = open(f, encoding="utf-8").read()
             except Exception:
                 continue
-            if len(t) < 40000:
+            if len(t) < MAX_CORPUS_LEN:
                 out.append(t)
         _corpus = out
     return _corpus
@@ -243,7 +246,10 @@ def run(tier, seed):
     chk = core.Check("C18", "exploration", tier, seed)
     bin_ = core.build_lalrpop()
     base = core.seed_for("C18", seed) % (2 ** 31)
-    n = {"quick": 12000, "thorough": 300000}[tier]
+    n = {"quick": 10000, "thorough": 300000}[tier]
+    global MAX_CORPUS_LEN
+    if tier == "thorough":
+        MAX_CORPUS_LEN = 40000
     mix = [("token", 0.3), ("gen_token", 0.15), ("targeted", 0.3), ("conflict", 0.12), ("bytes", 0.1), ("garbage", 0.03)]
     specs = []
     i = 0
